@@ -25,18 +25,44 @@ TOL = 1e-12
 
 
 class Expr(tuple):
-    __slots__ = ()
+    """Immutable node. The hash is cached and nodes built by the constructors are interned, so that equality of large
+    shared sub-expressions is (almost always) an identity test — joins of big normal forms stay cheap."""
 
     @property
     def tag(self):
         return self[0]
 
+    def __hash__(self):
+        try:
+            return self.__dict__["_h"]
+        except KeyError:
+            h = tuple.__hash__(self)
+            self.__dict__["_h"] = h
+            return h
+
+    def __eq__(self, other):
+        if self is other:
+            return True
+        if isinstance(other, Expr) and hash(self) != hash(other):
+            return False
+        return tuple.__eq__(self, other)
+
+    def __ne__(self, other):
+        return not self.__eq__(other)
+
     def __repr__(self):
         return show(self)
 
 
+_INTERN: Dict["Expr", "Expr"] = {}
+
+
 def _mk(*a) -> Expr:
-    return Expr(a)
+    e = Expr(a)
+    try:
+        return _INTERN.setdefault(e, e)
+    except TypeError:  # unhashable payload (should not happen)
+        return e
 
 
 # ----------------------------------------------------------------------------- constructors
@@ -105,7 +131,11 @@ def _sorted(es: Iterable[Expr]) -> List[Expr]:
 def _key(e):
     # total order on expressions: by tag then structure (numbers compare by value)
     if isinstance(e, Expr):
-        return (0, e[0], tuple(_key(x) for x in e[1:]))
+        k = e.__dict__.get("_k")
+        if k is None:
+            k = (0, e[0], tuple(_key(x) for x in e[1:]))
+            e.__dict__["_k"] = k
+        return k
     if isinstance(e, tuple):
         return (1, "", tuple(_key(x) for x in e))
     if isinstance(e, (int, float)):
